@@ -14,9 +14,13 @@ CHECKS["C02"] = {"category": "proof",
   "text": "Every function under contract for any property is also checked by CBMC for memory safety (bounds, pointer validity, pointer arithmetic), signed overflow, shift and division UB, float->integer conversion UB, the standard-library preconditions asserted by the models (string_view index/front/back, isdigit domain, ...), loop termination where a decreases clause is given, unwinding completeness, and 'no exception leaves a noexcept function/destructor'. The property is the conjunction over the functions listed in the evidence; code not under contract is named there as unverified.",
   "note": "per-function, modular: holds for the functions listed under functions_under_contract only; recursion depth / heap proportionality and third-party parsers are not covered",
   "technique": _T + "CBMC safety obligations + model preconditions on every extracted function, all inputs"}
+CHECKS["C07"] = {"category": "proof",
+  "text": "Every CMsgPackStringReader method is proved against an independent MessagePack reference decoder for a document of symbolic size, symbolic contents and symbolic read position: every legal format width loads the value the specification assigns and consumes exactly the encoding; every truncation raises ParsingException; other families follow the mismatched-types policy. Loop-free once the recursive skipper is replaced by its contract.",
+  "note": "SkipValueImpl replaced by contract in the reader proofs; documents up to 2^40 bytes; stream reader and ReadKey dispatch listed in evidence when under contract",
+  "technique": _T + "postconditions against an independent reference decoder over a symbolic-size document (R2 direct harness, SAT)"}
 _NR = "not reached yet in this round: the check is not built; see DESIGN.md §0 for the planned contracts"
 NOT_APPLICABLE = {
  "C08": "well-formedness and acceptance of JSON/XML text is decided inside RapidJSON and pugixml (third-party code outside /repo); no contract on /repo code can express it without a verified model of those libraries (DESIGN.md §4 C08)",
 }
-for _p in ["C01","C03","C05","C07","C09","C10","C11","C12","C13","C14","C15","C16","C17","C18","C19","C20"]:
+for _p in ["C01","C03","C05","C09","C10","C11","C12","C13","C14","C15","C16","C17","C18","C19","C20"]:
     NOT_APPLICABLE.setdefault(_p, _NR)
